@@ -54,6 +54,7 @@ void *__wrap_malloc(size_t n) {
   return __real_malloc(n);
 }
 void *__real_mmap(void *, size_t, int, int, int, off_t);
+static int skip_lenmatch = 0;
 static size_t map_len = 0;     /* what the kernel was last asked to give the library-managed buffer */
 void *__wrap_mmap(void *a, size_t l, int p, int f, int fd, off_t o) {
   if (hit(K_MMAP)) { errno = ferr(ENOMEM); return MAP_FAILED; }
@@ -173,6 +174,33 @@ int main(int argc, char **argv) {
         printf("asm2=%d off2=%d\n", rcf, asm_get_offset(al));
         goto after_growth;
       }
+      /* growthafter:<T>: C15 — a long assembly whose growth is refused, then asm_set_offset(T) and a call: the same as on a fresh instance */
+      if (sscanf(sc, "growthafter:%d", &far) == 1) {
+        char *big2 = __real_malloc(2600 * 32 + 1);
+        char *w2 = big2;
+        big2[0] = 0;
+        for (int i = 0; i < 2600; i++) w2 += sprintf(w2, "mov rdx, 0x1122334455667788\n");
+        printf("offb=%d\n", asm_get_offset(al));
+        int rcf = LIB(asm_assemble_str(al, big2)); OUT();
+        printf("asm2=%d off2=%d\n", rcf, asm_get_offset(al));
+        free(big2);
+        asm_set_offset(al, far);
+        int rca = LIB(asm_assemble_str(al, P1)); OUT();
+        int offa = asm_get_offset(al);
+        uint8_t ca[16]; memset(ca, 0, sizeof ca);
+        if (rca == 0) memcpy(ca, asm_get_code(al) + far, 14);
+        assemblyline_t fr = LIB(asm_create_instance(NULL, 0)); OUT();
+        asm_set_offset(fr, far);
+        int rcb = LIB(asm_assemble_str(fr, P1)); OUT();
+        int offb2 = asm_get_offset(fr);
+        uint8_t cb[16]; memset(cb, 0, sizeof cb);
+        if (rcb == 0) memcpy(cb, asm_get_code(fr) + far, 14);
+        printf("same_as_fresh=%d after=%d,%d fresh=%d,%d\n", rca == rcb && offa == offb2 && memcmp(ca, cb, 16) == 0, rca, offa, rcb, offb2);
+        LIB(asm_destroy_instance(fr)); OUT();
+        skip_lenmatch = 1;
+        asm_set_offset(al, off1);
+        goto after_growth;
+      }
       if (sscanf(sc, "growthfit:%d:%d", &chunk, &lead) == 2) counting = 0;
       else if (sscanf(sc, "growthcount:%d:%d", &chunk, &lead) == 2) counting = 1;
       /* growthbigfit:<chunk> / growthbigcount:<chunk>: the whole 2600-instruction program in ONE fitting / counting call, so that
@@ -222,7 +250,7 @@ int main(int argc, char **argv) {
     int rc3 = LIB(asm_assemble_str(al, P3)); OUT();
     printf("asm3=%d off3=%d delta3=%d\n", rc3, asm_get_offset(al), asm_get_offset(al) - offn);
     /* the recorded buffer length is what the kernel was asked for (the model's invariant bufLen = |mem|) */
-    if (!external) {
+    if (!external && !skip_lenmatch) {
       struct { uint8_t *buffer; int buffer_len; } *pk = (void *)al;
       printf("lenmatch=%d\n", (size_t)pk->buffer_len == map_len);
     }
